@@ -5,12 +5,14 @@ import "fmt"
 // C39: Rename and Move relocate objects without losing anything (spec: coq/C38/Spec.v spec_rename / spec_move).
 
 func init() {
-	register(&Prop{ID: "C39", Module: "V.C39.Check", Gen: c39Gen, Quick: 900, Thorough: 12000, Shard: 300})
+	register(&Prop{ID: "C39", Module: "V.C39.Check", Gen: c39Gen, Quick: 1500, Thorough: 12000, Shard: 300})
 }
 
 func c39KF(pg *c38PGraph, op *c38Op, text string) []string {
 	return c38KFMap(pg, op, map[string]string{
-		"rename-wrong-scope":                "C39-rename-unique-name-wrong-scope",
+		"hoist-mixed-case":                  "C39-hoist-with-references-in-other-letter-case",
+		"move-flat-field-common-prefix":     "C39-move-flat-field-key-common-prefix-panics",
+		"move-alone-prefixed-edge-ref":      "C39-move-alone-reprefixes-edge-reference-of-hoisted-children",
 		"move-into-own-descendant":          "C39-move-into-own-descendant",
 		"move-dotted-ref":                   "C39-move-dotted-key-loses-primary",
 		"hoist-undetected-child":            "C39-hoist-conflict-not-detected-for-flat-field-child",
